@@ -23,6 +23,7 @@ use std::{
 pub mod abi;
 mod clock;
 mod ops;
+pub mod pollsim;
 mod ring;
 
 pub use clock::*;
@@ -161,6 +162,9 @@ pub struct Kernel {
     pub watches: Vec<(usize, usize, u64)>,
     /// set while the event loop runs a pool job or env action (re-entrancy guard)
     pub in_callback: bool,
+    /// time a virtual pool worker spent parked inside the current callback: its own view of the
+    /// clock (its idle time-out elapses), not the run's
+    pub cb_offset_ns: u64,
 }
 
 impl Kernel {
@@ -177,6 +181,7 @@ impl Kernel {
             jobs: VecDeque::new(),
             watches: Vec::new(),
             in_callback: false,
+            cb_offset_ns: 0,
         }
     }
 }
@@ -320,7 +325,15 @@ fn hook_yield() {
 fn hook_park(timeout: Option<Duration>) {
     // nobody else can unpark us: time passes
     if let Some(d) = timeout {
-        with_kernel(|k| k.clock_ns = k.clock_ns.saturating_add(d.as_nanos() as u64 + 1));
+        with_kernel(|k| {
+            let d = d.as_nanos() as u64 + 1;
+            if k.in_callback {
+                // an idle pool worker waiting for its next job: only its own clock moves
+                k.cb_offset_ns = k.cb_offset_ns.saturating_add(d);
+            } else {
+                k.clock_ns = k.clock_ns.saturating_add(d);
+            }
+        });
     }
 }
 
@@ -339,7 +352,7 @@ fn hook_op_supported(code: u8) -> Option<bool> {
 }
 
 fn hook_now() -> Duration {
-    Duration::from_nanos(now_ns())
+    Duration::from_nanos(with_kernel(|k| k.clock_ns + if k.in_callback { k.cb_offset_ns } else { 0 }))
 }
 
 static HOOKS: simhook::Hooks = simhook::Hooks {
@@ -362,12 +375,41 @@ fn install_hooks() {
 pub fn pump_once() -> bool {
     let job = with_kernel(|k| if k.in_callback { None } else { k.jobs.pop_front() });
     if let Some(j) = job {
-        with_kernel(|k| k.in_callback = true);
+        with_kernel(|k| {
+            k.in_callback = true;
+            k.cb_offset_ns = 0;
+        });
         j();
         with_kernel(|k| k.in_callback = false);
         return true;
     }
     false
+}
+
+/// Run the environment actions that are due, oldest first.
+pub(crate) fn run_due_env() {
+    loop {
+        let ev = with_kernel(|k| {
+            let now = k.clock_ns;
+            let i = k.env.iter().enumerate().filter(|(_, e)| e.due_ns <= now).min_by_key(|(_, e)| (e.due_ns, e.seq)).map(|(i, _)| i)?;
+            Some(k.env.remove(i))
+        });
+        let Some(ev) = ev else { break };
+        klog(|| format!("kernel: environment: {}", ev.label));
+        sig(0x4e00 + fnv_label(&ev.label));
+        (ev.action)();
+    }
+}
+
+/// The only thread of the run is about to sleep with nothing that could ever wake it.
+pub(crate) fn blocked_forever(what: &str) {
+    simcore::try_with(|d| {
+        d.raise(simcore::Violation::new(
+            "blocked-forever",
+            format!("the runtime thread waits in {what} and nothing can ever complete: no pool job, no peer action scheduled"),
+        ))
+    });
+    panic!("[expected] simkernel: the wait would block forever");
 }
 
 pub(crate) fn fnv_label(s: &str) -> u64 {
